@@ -258,6 +258,17 @@ let handle_rxwrap words =
     show_cps (RegexWrap.inside_group ext cls nl gb pq (cps pat))
   | _ -> "badcase"
 
+(* rxrefs regextype pattern(cps) -> 1/0: the back-references all refer to complete groups *)
+let handle_rxrefs words =
+  match words with
+  | [ty; pat] ->
+    let (ext, nl, cls) = (match ty with
+        | "emacs" -> (false, false, false) | "grep" -> (false, true, true)
+        | "posix-extended" -> (true, false, true) | "posix-basic" | "ed" | "sed" -> (false, false, true)
+        | _ -> failwith "regextype") in
+    if RegexRefs.back_references_ok ext nl cls (cps pat) then "1" else "0"
+  | _ -> "badcase"
+
 (* ---- paths ---- *)
 let hexlist l = if l = [] then "~" else String.concat "," (Stdlib.List.map hex_of_bytes l)
 let bl s = Stdlib.List.map bytes_of_hex (list_of s)
@@ -471,7 +482,7 @@ let handle_args words =
   | _ -> "badcase"
 
 let handlers : (string * (string list -> string)) list ref =
-  ref [ ("xread", handle_xread); ("xargs", handle_xargs); ("xrepl", handle_xrepl); ("xnorm", handle_xnorm); ("walk", handle_walk); ("unfoldg", handle_unfoldg); ("expr", handle_expr); ("num", handle_num); ("glob", handle_glob); ("rxwrap", handle_rxwrap); ("paths", handle_paths); ("delete", handle_delete); ("execm", handle_execm); ("limits", handle_limits); ("entry", handle_entry); ("regex", handle_regex); ("printf", handle_printf); ("pv", handle_pv); ("args", handle_args) ]
+  ref [ ("xread", handle_xread); ("xargs", handle_xargs); ("xrepl", handle_xrepl); ("xnorm", handle_xnorm); ("walk", handle_walk); ("unfoldg", handle_unfoldg); ("expr", handle_expr); ("num", handle_num); ("glob", handle_glob); ("rxwrap", handle_rxwrap); ("rxrefs", handle_rxrefs); ("paths", handle_paths); ("delete", handle_delete); ("execm", handle_execm); ("limits", handle_limits); ("entry", handle_entry); ("regex", handle_regex); ("printf", handle_printf); ("pv", handle_pv); ("args", handle_args) ]
 
 let () =
   try while true do
